@@ -368,6 +368,9 @@ func (d *driver) check() int {
 		if k.Property != d.prop {
 			continue
 		}
+		if k.Probe == "" && k.Status == "fixed" {
+			continue // schedule-dependent defect: re-checked by the search itself, no fixed-schedule probe
+		}
 		if k.Probe == "none-wasm" {
 			continue // re-checked by the engine's js/wasm phase, which has no native probe
 		}
